@@ -93,6 +93,10 @@ theorem unknown_validator_rejected (o : Opts) (g tag : String)
   have : parseValidatorTags "nosuchvalidator" = none := by decide
   simp [hig, this, isErr]
 
+/-- the validator names the model knows are the ones validator.go registers at init (regenerated from the source on every
+run: registering another built-in validator, or renaming one, breaks this) -/
+theorem validators_are_the_registered_ones : knownValidators = Extracted.validatorNames := rfl
+
 /-! non-vacuity -/
 example : runValidator default ⟨"min", "3"⟩ (.scalar (.int 1)) = some .bound := by decide
 example : runValidator default ⟨"min", "3"⟩ (.scalar (.int 5)) = none := by decide
